@@ -1,5 +1,5 @@
 # props/C07.py — fixed_vector behaves as a bounded sequence, including copy, move and assignment
-from props.vec_common import before_begin_cases, alias_cases, VecCheck, exhaustive, fault_cases, random_case, malformed_cases, small_alphabet_cases
+from props.vec_common import ctor_cases, before_begin_cases, alias_cases, VecCheck, exhaustive, fault_cases, random_case, malformed_cases, small_alphabet_cases
 
 
 class C07(VecCheck):
@@ -47,6 +47,13 @@ class C07(VecCheck):
         if tier == "thorough":
             for c in before_begin_cases("C", caps):
                 yield c, "before-begin-C"
+        for v in ("C", "P"):
+            for c in ctor_cases(v, caps):
+                yield c, "ctor-sources-" + v
+        for c in ctor_cases("T", caps, faults=True):
+            yield c, "ctor-sources-faults-T"
+        for c in exhaustive("P", caps, 2 if tier == "quick" else 3, True):
+            yield c, "exh-P"
         for c in exhaustive("C", caps, 3, True):
             yield c, "exh3-C"
         for c in small_alphabet_cases("C", caps, 4 if tier == "quick" else 5):
